@@ -259,6 +259,30 @@ def gateProceed (ctx : Ctx) (st : St) (n : Node) : Bool × St :=
       else (false, st.note "gate:inputsize")
     else (true, st)
 
+/-- first of `nm_k, nm_(k+1), …` that is not taken (`while f"{name}_{counter}" in graph.initializers: counter += 1`); among
+`|taken| + 1` candidates one is free, so the fuel `|taken|` suffices -/
+def uniqueSuffix (taken : List String) (nm : String) : Nat → Nat → String
+  | 0, k => nm ++ "_" ++ toString k
+  | f + 1, k => if taken.contains (nm ++ "_" ++ toString k) then uniqueSuffix taken nm f (k + 1) else nm ++ "_" ++ toString k
+
+/-- `_make_initializer_name_unique(graph, folded_value, new_initializer)` (commit 6fc3d91): when the name of the value that is
+being folded is already held by a registered initializer, the folded value takes a fresh name `<n>_<k>`; a graph output keeps
+its name and the initializer registered earlier is renamed instead.  Only display names, the registry of registered names
+and the log change. -/
+def makeRoom (st : St) (o : Name) : St :=
+  let nm := st.display o
+  let clash := st.initDisplay.contains nm
+  let fresh := uniqueSuffix st.initDisplay nm st.initDisplay.length 1
+  let isOut := st.gouts.contains o
+  let holder := st.initNames.find? fun x => !st.removed.contains x && x != o && st.display x == nm
+  { st with
+    dname := if clash then
+               (if isOut then (match holder with | some e => insertA st.dname e fresh | none => st.dname)
+                else insertA st.dname o fresh)
+             else st.dname,
+    initDisplay := if clash then (if isOut then fresh :: st.initDisplay.erase nm else st.initDisplay) else st.initDisplay,
+    hist := if clash then "fold:rename" :: st.hist else st.hist }
+
 /-- After the reference evaluator answered `c`: single output, `output_size_limit` with
 removed-input compensation (`_prepare_folded_tensor`), then `new_constant` / `new_initializer`. -/
 def emitFold (ctx : Ctx) (st : St) (n : Node) (c : CInfo) : PRes × St :=
@@ -275,10 +299,9 @@ def emitFold (ctx : Ctx) (st : St) (n : Node) (c : CInfo) : PRes × St :=
     let st := st.setInfo v {}
     (.repl n { newNodes := [mkNode "Constant" [] [v] [("value", .tensor c.tok)]], newOuts := [v] }, st.note "fold:constant")
   else
-    -- `graph.register_initializer`: a different value object under an already registered name raises
+    -- `_make_initializer_name_unique` (commit 6fc3d91) and then `graph.register_initializer`: the name is free by now
+    let st := makeRoom st (n.outputs.headD "")
     let nm := st.display (n.outputs.headD "")
-    if st.initDisplay.contains nm then (.error "register_initializer: name already registered", st.note "fold:nameclash")
-    else
     (.repl n { newNodes := [], newOuts := [v], inits := [(v, c.tok)] },
      { st with initDisplay := nm :: st.initDisplay }.note "fold:initializer")
 
@@ -468,10 +491,11 @@ def readsName : Nat → Graph → Name → Bool
   | 0, _, _ => false
   | d + 1, g, x => g.nodes.any fun n => n.inputs.contains (some x) || n.subs.any fun (_, sg) => readsName d sg x
 
-/-- `visit_function`, after the node loop (commit 26dd9fc): a function body cannot hold initializers; whatever an inlined
-If branch brought along and is still read becomes a `Constant` node at the top of the body, under the same name. -/
+/-- `visit_function`, after the node loop (commits 26dd9fc, a9715ec): a function body cannot hold initializers; whatever an inlined
+If branch brought along and is still read — or is an output of the body — becomes a `Constant` node at the top of the body,
+under the same name. -/
 def initsToConstants (st : St) (g : Graph) : St × Graph :=
-  let live := g.inits.filter fun (x, _) => readsName maxDepth g x
+  let live := g.inits.filter fun (x, _) => readsName maxDepth g x || g.outputs.contains x
   if g.inits.isEmpty then (st, g) else
   (if live.isEmpty then st else { st with modified := true },
    Graph.mk g.inputs [] (live.map (fun (x, t) => mkNode "Constant" [] [x] [("value", .tensor t)]) ++ g.nodes) g.outputs)
